@@ -77,8 +77,11 @@ def qubit_program(draw, n, max_gates=5, max_heralded=1, allow_ps=True, three=Tru
         elif k == 3:
             gates.append([draw(st.sampled_from(sorted(SINGLE))), draw(st.integers(0, n - 1)), {}])
         elif k == 4:
+            theta = draw(st.floats(-7, 7, allow_nan=False))
+            if abs(theta) < 1e-9:
+                theta = 0.0        # amplitudes of subnormal size only exercise LAPACK underflow, not lightworks
             gates.append([draw(st.sampled_from(["Rx", "Ry", "Rz", "P"])), draw(st.integers(0, n - 1)),
-                          {"theta": draw(st.floats(-7, 7, allow_nan=False))}])
+                          {"theta": theta}])
         elif k in (5, 6):
             q = draw(st.integers(0, n - 2))
             names = []
